@@ -143,6 +143,20 @@ TraceRewardSweep ==
     /\ UNCHANGED <<desc, orc, pc, prune, nodes, prob, rstrat, rew, fstrat, res, hist,
                    mode, dcur, orcs, outs, reached, snaps>>
 
+\* Known finding K5 (DESIGN section 8): with rewards multiplied by 2**70 the solver's absolute
+\* six-decimal rounding no longer sees exact ties; a C05.Exact clause is renamed K5:C05.Exact when the
+\* state has at least two exactly tied optimal actions and the reported list is a non-empty subset of them
+FStratK5(base, fs) ==
+    LET k5 == IF S.rmulpow = 0 \/ ~ro.ok THEN {}
+              ELSE {s \in ro.Dom :
+                      /\ desc.owner[s] # PR /\ Len(ro.Gc.tr[s]) > 0 /\ Len(fs) = desc.n
+                      /\ LET fz == FinalZones(ro, s)
+                             row == ro.Gc.tr[s]
+                         IN  Cardinality(fz.best) >= 2 /\ Len(fs[s].acts) > 0
+                             /\ SeqSet(fs[s].acts) \subseteq {row[j].a : j \in fz.best}}
+        tagged == {"C05.Exact s=" \o S2(s) : s \in k5} \cap base
+    IN  (base \ tagged) \cup {"K5:" \o c : c \in tagged}
+
 \* outcome bookkeeping shared by Return / Raise / Timeout
 Outcome(o) ==
     LET key == <<dcur, prune>>
@@ -177,7 +191,7 @@ TraceReturn ==
                 \cup (IF pc = "conditioned"
                       THEN RewardClauses(ro, Ev.rew)
                            \cup (IF orc.exact \/ Len(Ev.rew) # desc.n THEN {} ELSE BellmanReward(ro.Gc, ro.Dom, Ev.rew))
-                           \cup FStratClauses(desc, ro, rstrat, Ev.fstrat)
+                           \cup FStratK5(FStratClauses(desc, ro, rstrat, Ev.fstrat), Ev.fstrat)
                            \cup DiagClauses(desc, ro, rstrat, Ev.fstrat, Ev.aux1, Ev.aux2)
                       ELSE {})
                 \cup SameResult(o)
